@@ -54,7 +54,10 @@ impl<R: RealNumberInternalTrait> Number<R> {
     pub(crate) fn exact_eqv(&self, other: &Self) -> bool {
         match (self, other) {
             (Number::Integer(a), Number::Integer(b)) => a.eq(b),
-            (Number::Rational(a1, b1), Number::Rational(a2, b2)) => (a1 * b2).eq(&(b1 * a2)),
+            (Number::Rational(a1, b1), Number::Rational(a2, b2)) => {
+                let (lhs, rhs) = cross_products(*a1, *b1, *a2, *b2);
+                lhs.eq(&rhs)
+            }
             (Number::Real(a), Number::Real(b)) => a.eq(b),
             _ => false,
         }
@@ -66,7 +69,10 @@ impl<R: RealNumberInternalTrait> PartialEq for Number<R> {
     fn eq(&self, other: &Number<R>) -> bool {
         match upcast_oprands((*self, *other)) {
             NumberBinaryOperand::Integer(a, b) => a.eq(&b),
-            NumberBinaryOperand::Rational(a1, a2, b1, b2) => (a1 * b2).eq(&(b1 * a2)),
+            NumberBinaryOperand::Rational(a1, a2, b1, b2) => {
+                let (lhs, rhs) = cross_products(a1, a2, b1, b2);
+                lhs.eq(&rhs)
+            }
             NumberBinaryOperand::Real(a, b) => a.eq(&b),
         }
     }
@@ -76,8 +82,47 @@ impl<R: RealNumberInternalTrait> PartialOrd for Number<R> {
     fn partial_cmp(&self, other: &Number<R>) -> Option<Ordering> {
         match upcast_oprands((*self, *other)) {
             NumberBinaryOperand::Integer(a, b) => a.partial_cmp(&b),
-            NumberBinaryOperand::Rational(a1, a2, b1, b2) => (a1 * b2).partial_cmp(&(b1 * a2)),
+            NumberBinaryOperand::Rational(a1, a2, b1, b2) => {
+                let (lhs, rhs) = cross_products(a1, a2, b1, b2);
+                lhs.partial_cmp(&rhs)
+            }
             NumberBinaryOperand::Real(a, b) => a.partial_cmp(&b),
+        }
+    }
+}
+
+fn gcd(a: i128, b: i128) -> i128 {
+    let (mut a, mut b) = (a.abs(), b.abs());
+    while b != 0 {
+        let r = a % b;
+        a = b;
+        b = r;
+    }
+    a
+}
+
+/// a1/a2 ? b1/b2 compared as a1*b2 ? b1*a2, corrected for negative denominators
+fn cross_products(a1: i32, a2: i32, b1: i32, b2: i32) -> (i128, i128) {
+    let sign = if (a2 < 0) != (b2 < 0) { -1 } else { 1 };
+    (
+        a1 as i128 * b2 as i128 * sign,
+        b1 as i128 * a2 as i128 * sign,
+    )
+}
+
+impl<R: RealNumberInternalTrait> Number<R> {
+    /// The exact number numerator/denominator in canonical form: lowest terms, positive
+    /// denominator, an integer when the denominator is 1. A result whose components do not
+    /// fit the exact representation becomes the nearest inexact number.
+    pub(crate) fn from_ratio(numerator: i128, denominator: i128) -> Self {
+        use std::convert::TryFrom;
+        let divisor = gcd(numerator, denominator).max(1);
+        let sign = if denominator < 0 { -1 } else { 1 };
+        let (numerator, denominator) = (sign * numerator / divisor, sign * denominator / divisor);
+        match (i32::try_from(numerator), i32::try_from(denominator)) {
+            (Ok(numerator), Ok(1)) => Number::Integer(numerator),
+            (Ok(numerator), Ok(denominator)) => Number::Rational(numerator, denominator),
+            _ => Number::Real(R::from(numerator as f64 / denominator as f64).unwrap()),
         }
     }
 }
@@ -120,7 +165,7 @@ impl<R: RealNumberInternalTrait> NumberBinaryOperand<R> {
         match self {
             NumberBinaryOperand::Integer(a, _) => Number::Integer(*a),
             NumberBinaryOperand::Real(a, _) => Number::Real(*a),
-            NumberBinaryOperand::Rational(a1, a2, _, _) => Number::Rational(*a1, *a2),
+            NumberBinaryOperand::Rational(a1, a2, _, _) => Number::from_ratio(*a1 as i128, *a2 as i128),
         }
     }
 
@@ -128,7 +173,7 @@ impl<R: RealNumberInternalTrait> NumberBinaryOperand<R> {
         match self {
             NumberBinaryOperand::Integer(_, b) => Number::Integer(*b),
             NumberBinaryOperand::Real(_, b) => Number::Real(*b),
-            NumberBinaryOperand::Rational(_, _, b1, b2) => Number::Rational(*b1, *b2),
+            NumberBinaryOperand::Rational(_, _, b1, b2) => Number::from_ratio(*b1 as i128, *b2 as i128),
         }
     }
 }
@@ -140,7 +185,8 @@ impl<R: RealNumberInternalTrait> std::ops::Add<Number<R>> for Number<R> {
             NumberBinaryOperand::Integer(a, b) => Number::Integer(a + b),
             NumberBinaryOperand::Real(a, b) => Number::Real(a + b),
             NumberBinaryOperand::Rational(a1, a2, b1, b2) => {
-                Number::Rational(a1 * b2 + a2 * b1, a2 * b2)
+                let (a1, a2, b1, b2) = (a1 as i128, a2 as i128, b1 as i128, b2 as i128);
+                Number::from_ratio(a1 * b2 + a2 * b1, a2 * b2)
             }
         }
     }
@@ -153,7 +199,8 @@ impl<R: RealNumberInternalTrait> std::ops::Sub<Number<R>> for Number<R> {
             NumberBinaryOperand::Integer(a, b) => Number::Integer(a - b),
             NumberBinaryOperand::Real(a, b) => Number::Real(a - b),
             NumberBinaryOperand::Rational(a1, a2, b1, b2) => {
-                Number::Rational(a1 * b2 - a2 * b1, a2 * b2)
+                let (a1, a2, b1, b2) = (a1 as i128, a2 as i128, b1 as i128, b2 as i128);
+                Number::from_ratio(a1 * b2 - a2 * b1, a2 * b2)
             }
         }
     }
@@ -165,7 +212,9 @@ impl<R: RealNumberInternalTrait> std::ops::Mul<Number<R>> for Number<R> {
         match upcast_oprands((self, rhs)) {
             NumberBinaryOperand::Integer(a, b) => Number::Integer(a * b),
             NumberBinaryOperand::Real(a, b) => Number::Real(a * b),
-            NumberBinaryOperand::Rational(a1, a2, b1, b2) => Number::Rational(a1 * b1, a2 * b2),
+            NumberBinaryOperand::Rational(a1, a2, b1, b2) => {
+                Number::from_ratio(a1 as i128 * b1 as i128, a2 as i128 * b2 as i128)
+            }
         }
     }
 }
@@ -176,17 +225,17 @@ impl<R: RealNumberInternalTrait> std::ops::Div<Number<R>> for Number<R> {
         match upcast_oprands((self, rhs)) {
             NumberBinaryOperand::Integer(a, b) => {
                 check_division_by_zero(b)?;
-                match a % b {
-                    0 => Ok(Number::Integer(a / b)),
-                    _ => Ok(Number::Rational(a, b)),
-                }
+                Ok(Number::from_ratio(a as i128, b as i128))
             }
             NumberBinaryOperand::Real(a, b) => Ok(Number::Real(a / b)),
             NumberBinaryOperand::Rational(a1, a2, b1, b2) => {
                 check_division_by_zero(b1)?;
                 check_division_by_zero(a2)?;
                 check_division_by_zero(b2)?;
-                Ok(Number::Rational(a1 * b2, a2 * b1))
+                Ok(Number::from_ratio(
+                    a1 as i128 * b2 as i128,
+                    a2 as i128 * b1 as i128,
+                ))
             }
         }
     }
@@ -197,7 +246,7 @@ impl<R: RealNumberInternalTrait> Number<R> {
         match self {
             Number::Integer(num) => Number::Integer(num.abs()),
             Number::Real(num) => Number::Real(num.abs()),
-            Number::Rational(a, b) => Number::Rational(a.abs(), b.abs()),
+            Number::Rational(a, b) => Number::from_ratio((a as i128).abs(), (b as i128).abs()),
         }
     }
 
@@ -257,14 +306,14 @@ impl<R: RealNumberInternalTrait> Number<R> {
         match self {
             Number::Integer(num) => Number::Integer(num),
             Number::Real(num) => Number::Real(num.floor()),
-            Number::Rational(a, b) => Number::Integer({
-                let quot = a / b;
-                if quot >= 0 || quot * b == a {
-                    quot
+            Number::Rational(a, b) => {
+                let (a, b) = if b < 0 {
+                    (-(a as i128), -(b as i128))
                 } else {
-                    quot - 1
-                }
-            }),
+                    (a as i128, b as i128)
+                };
+                Number::from_ratio(a.div_euclid(b), 1)
+            }
         }
     }
 
@@ -272,14 +321,14 @@ impl<R: RealNumberInternalTrait> Number<R> {
         match self {
             Number::Integer(num) => Number::Integer(num),
             Number::Real(num) => Number::Real(num.ceil()),
-            Number::Rational(a, b) => Number::Integer({
-                let quot = a / b;
-                if quot <= 0 || quot * b == a {
-                    quot
+            Number::Rational(a, b) => {
+                let (a, b) = if b < 0 {
+                    (-(a as i128), -(b as i128))
                 } else {
-                    quot + 1
-                }
-            }),
+                    (a as i128, b as i128)
+                };
+                Number::from_ratio(-(-a).div_euclid(b), 1)
+            }
         }
     }
 
